@@ -1293,6 +1293,27 @@ class Environment:
 ####################
 
 
+def _nested_sample_params(params: dict[str, Any]) -> dict[str, Any] | None:
+    """Parameters of the first sampling equation nested, at any depth, in the
+    sub-Jaxprs held by an equation's `params` (None if there is none)."""
+    stack = list(params.values())
+    while stack:
+        v = stack.pop()
+        if isinstance(v, (tuple, list)):
+            stack.extend(v)
+            continue
+        if isinstance(v, ClosedJaxpr):
+            v = v.jaxpr
+        if not isinstance(v, Jaxpr):
+            continue
+        for eqn in v.eqns:
+            primitive, inner_params = PPPrimitive.unwrap(eqn.primitive)
+            if primitive in (sample_p, adev_sample_p):
+                return inner_params
+            stack.extend(eqn.params.values())
+    return None
+
+
 @dataclass
 class Seed:
     """Interpreter that eliminates probabilistic primitives with explicit randomness.
@@ -1411,6 +1432,17 @@ class Seed:
                 )
 
             else:
+                # A higher-order primitive this interpreter does not interpret
+                # (checkpoint, custom_jvp / custom_vjp calls, while, pjit, ...)
+                # is re-bound unchanged: a sampling site nested in it would be
+                # evaluated with hidden randomness, ignoring the key.
+                nested = _nested_sample_params(eqn.params)
+                if (
+                    nested is not None
+                    and enforce_lowering_exception
+                    and "lowering_exception" in nested
+                ):
+                    raise nested["lowering_exception"]
                 outvals = eqn.primitive.bind(*args, **params)
 
             if not eqn.primitive.multiple_results:
